@@ -181,6 +181,7 @@ def run_family(case, bus, ex):
     a2 = [al * L2 ** j / dt2 for j, al in enumerate(alpha)]
     info = dict(family=fam, D=D, N=N, L=L, dt=dt, coefficients=a, order=order, s=s, t=t, maximum_absolute=M)
     C = 1
+    extra_flag = []
     if fam == "linear":
         g = Gn.GeneralLinearStepper(D, L, N, dt, linear_coefficients=tuple(a))
         n = Gn.NormalizedLinearStepper(D, N, normalized_linear_coefficients=tuple(alpha))
@@ -202,6 +203,15 @@ def run_family(case, bus, ex):
         d = Gn.DifficultyConvectionStepper(D, N, linear_difficulties=tuple(gamma), convection_difficulty=delta, maximum_absolute=M, **kw)
         r = Gn.GeneralConvectionStepper(D, L2, N, dt2, linear_coefficients=tuple(a2), convection_scale=beta * L2 / dt2, **kw)
         extra = []
+        # every flag combination and a non-default dealiasing fraction must pass through all three interfaces unchanged
+        for sf, co, frac in ((False, True, 2 / 3), (True, True, 2 / 3), (False, False, 2 / 3), (True, False, 2 / 3), (False, True, 1.0), (True, True, 0.5)):
+            if (sf, co, frac) == (sflag, cons, 2 / 3):
+                continue
+            kw2 = dict(single_channel=sf, conservative=co, order=order, dealiasing_fraction=frac)
+            g2 = Gn.GeneralConvectionStepper(D, L, N, dt, linear_coefficients=tuple(a), convection_scale=b1, **kw2)
+            n2 = Gn.NormalizedConvectionStepper(D, N, normalized_linear_coefficients=tuple(alpha), normalized_convection_scale=beta, **kw2)
+            d2 = Gn.DifficultyConvectionStepper(D, N, linear_difficulties=tuple(gamma), convection_difficulty=delta, maximum_absolute=M, **kw2)
+            extra_flag.append((f"sc={sf},cons={co},frac={frac:.2f}", 1 if sf else D, g2, n2, d2))
     elif fam == "gradient_norm":
         b2 = U(0.3, 1.5) * sc ** 2
         beta = b2 * dt / L ** 2
@@ -237,6 +247,10 @@ def run_family(case, bus, ex):
         compare(bus, "rescaling_invariance", g, r, u, sig, dict(info, state=kind))
         for label, x, y in extra:
             compare(bus, "normalized_vs_difficulty", x, y, u, sig + (label,), dict(info, state=kind, variant=label))
+        for label, C2, g2, n2, d2 in extra_flag:
+            u2 = G.random_state(rng, kind, C2, D, N, amp=0.4)
+            compare(bus, "general_vs_normalized", g2, n2, u2, sig + (label,), dict(info, state=kind, variant=label))
+            compare(bus, "normalized_vs_difficulty", n2, d2, u2, sig + (label,), dict(info, state=kind, variant=label))
 
 
 def run_formulas(case, bus, ex):
